@@ -79,8 +79,9 @@ Shape(st, a) ==
             ELSE Fresh1(a.s, C)
       [] a.op = "freeze" -> IF ~Has(st, a.t) \/ C \notin Mutable THEN NotOk ELSE Fresh1(a.s, FrozenOf(C))
       [] a.op = "thaw" -> IF ~Has(st, a.t) \/ C \notin Frozen THEN NotOk ELSE Fresh1(a.s, ThawOf(C))
-      [] a.op = "str" ->          \* Cls.from_str(str(x))
-            IF ~Has(st, a.t) \/ Kind(C) = "M" \/ Kind(a.c) # Kind(C) THEN NotOk ELSE Fresh1(a.s, a.c)
+      [] a.op = "str" ->          \* Cls.from_str(str(x)), Cls.from_str(x) given the instance itself, Cls.with_axes(.., x, ..)
+            IF ~Has(st, a.t) \/ Kind(C) = "M" \/ Kind(a.c) # Kind(C) THEN NotOk
+            ELSE IF a.c = C /\ C \in Frozen THEN Assign(a.s, a.c, "either", a.t, "fresh") ELSE Fresh1(a.s, a.c)
 
 \* operations whose result must be equal to the source object's value
 CopyLike == {"copy", "freeze", "thaw", "str"}
